@@ -86,13 +86,14 @@ inductive Next where
 `bodyLenOf` = `root_as_message(meta)` + `usize::try_from(message.bodyLength())`
 (`none` = either fails).
 
-* first `read_exact` of 4 bytes fails → `Ok(None)` (also when 1–3 bytes were left)
+* the first length word is read byte-wise: nothing there → `Ok(None)`; 1–3 bytes → `UnexpectedEof` error
 * the word is the continuation marker → second `read_exact(4)?` (EOF here is an error)
 * length 0 → `Ok(None)`; negative `i32` → error
 * `take(meta_len).read_to_end` short → error; body `read_exact` short → error -/
 def next (bodyLenOf : Bytes → Option Nat) (bs : Bytes) : Next :=
+  if bs.length = 0 then .eos else
   match readExact META_LEN_BYTES bs with
-  | none => .eos
+  | none => .err
   | some (w, r1) =>
     match (if w = contMarker then readExact META_LEN_BYTES r1 else some (w, r1)) with
     | none => .err
@@ -116,27 +117,27 @@ theorem next_rest_lt {f : Bytes → Option Nat} {bs md body rest : Bytes}
   unfold readExact at h
   split at h
   · cases h
-  · rename_i w r1 h1
-    split at h
+  · split at h
     · cases h
-    · rename_i w2 r2 h2
-      have hbs : 4 ≤ bs.length := by
-        by_cases hh : 4 ≤ bs.length
-        · exact hh
-        · simp [hh] at h1
-      have hr1 : r1.length = bs.length - 4 := by
-        simp [hbs] at h1
-        rw [← h1.2]; simp
-      have hr2 : r2.length ≤ r1.length := by
-        split at h2
-        · split at h2
-          · simp at h2; rw [← h2.2]; simp
-          · cases h2
-        · simp at h2; rw [h2.2]; exact Nat.le_refl _
-      simp only [] at h
+    · rename_i w r1 h1
       split at h
       · cases h
-      · split at h
+      · rename_i w2 r2 h2
+        have hbs : 4 ≤ bs.length := by
+          by_cases hh : 4 ≤ bs.length
+          · exact hh
+          · simp [hh] at h1
+        have hr1 : r1.length = bs.length - 4 := by
+          simp [hbs] at h1
+          rw [← h1.2]; simp
+        have hr2 : r2.length ≤ r1.length := by
+          split at h2
+          · split at h2
+            · simp at h2; rw [← h2.2]; simp
+            · cases h2
+          · simp at h2; rw [h2.2]; exact Nat.le_refl _
+        simp only [] at h
+        split at h
         · cases h
         · split at h
           · cases h
@@ -144,10 +145,12 @@ theorem next_rest_lt {f : Bytes → Option Nat} {bs md body rest : Bytes}
             · cases h
             · split at h
               · cases h
-              · simp at h
-                rw [← h.2.2]
-                simp
-                omega
+              · split at h
+                · cases h
+                · simp at h
+                  rw [← h.2.2]
+                  simp
+                  omega
 
 /-- `StreamReader`'s loop over `maybe_next`: all messages up to the first `Ok(None)`/`Err` -/
 def parseAll (bodyLenOf : Bytes → Option Nat) (bs : Bytes) : List (Bytes × Bytes) × End :=
@@ -183,8 +186,9 @@ the `Header` state to the completion of one message:
 * `Header`: 4 bytes; the first word may be the continuation marker (then 4 more); size 0 →
   `Finished` (any further byte → "Unexpected EOS" error); the size is a `u32` (no sign check)
 * `Message { size }`: `size` bytes, then `MessageBuffer::try_new` (abstract: `bodyLenOf`)
-* `Body`: only entered while the buffer is non-empty (`while !buffer.is_empty()`), so a message
-  whose metadata ends the input stays incomplete even when its body is empty. -/
+* `Body`: processed while the buffer is non-empty or the pending body is empty
+  (`while !buffer.is_empty() || self.has_pending_empty_body()`), so a message is complete
+  exactly when its last byte has arrived. -/
 def pushNext (bodyLenOf : Bytes → Option Nat) (bs : Bytes) : PNext :=
   if bs.length = 0 then .clean
   else
@@ -201,8 +205,7 @@ def pushNext (bodyLenOf : Bytes → Option Nat) (bs : Bytes) : PNext :=
           match bodyLenOf (r2.take v) with
           | none => .err
           | some bl =>
-            if (r2.drop v).length = 0 then .short
-            else if (r2.drop v).length < bl then .short
+            if (r2.drop v).length < bl then .short
             else .msg (r2.take v) ((r2.drop v).take bl) ((r2.drop v).drop bl)
 
 theorem pushNext_rest_lt {f : Bytes → Option Nat} {bs md body rest : Bytes}
@@ -241,12 +244,10 @@ theorem pushNext_rest_lt {f : Bytes → Option Nat} {bs md body rest : Bytes}
             · cases h
             · split at h
               · cases h
-              · split at h
-                · cases h
-                · simp at h
-                  rw [← h.2.2]
-                  simp
-                  omega
+              · simp at h
+                rw [← h.2.2]
+                simp
+                omega
 
 /-- feed the whole input, collect the messages, then `finish` -/
 def pushAll (bodyLenOf : Bytes → Option Nat) (bs : Bytes) : List (Bytes × Bytes) × End :=
